@@ -162,6 +162,44 @@ pub fn run(ctx: &mut Ctx, replay: Option<&[String]>) {
             ctx.emit(&format!("c08 p {}", enc_text(&m)), &o, true, &[tag]);
         }
     }
+    // heavy lines: a row and a column of weight 33 ... 90 (index lists longer than any batch size a writer might use), entries inserted
+    // in random order; compared character by character with the model like every other matrix
+    for _ in 0..ctx.scale(12, 200) {
+        let (nr, nc) = (rng.range(40, 100), rng.range(40, 100));
+        let mut h = SparseMatrix::new(nr, nc);
+        let (hr, hc) = (rng.below(nr), rng.below(nc));
+        let mut cols: Vec<usize> = (0..nc).collect();
+        for i in (1..nc).rev() { cols.swap(i, rng.below(i + 1)); }
+        for &c in cols.iter().take(rng.range(33, nc.min(90))) { h.insert(hr, c); }
+        let mut rows: Vec<usize> = (0..nr).collect();
+        for i in (1..nr).rev() { rows.swap(i, rng.below(i + 1)); }
+        for &r in rows.iter().take(rng.range(33, nr.min(90))) { h.insert(r, hc); }
+        for _ in 0..rng.below(40) { h.insert(rng.below(nr), rng.below(nc)); }
+        ctx.emit(&format!("c08 w {}", sm(&h)), &write_res(&h), true, &["write-matrix-with-heavy-row-and-column"]);
+        for text in [h.alist(), h.alist_no_padding()] {
+            ctx.emit(&format!("c08 p {}", enc_text(&text)), &parse_res(&text), true, &["parse-written-alist-heavy"]);
+        }
+    }
+    // large sparse matrices (the shapes of real codes: rows x columns beyond 2^30 while the number of ones stays small): written and
+    // parsed back by the implementation, compared there (the list-based model is not run on them)
+    for (nr, nc, per_col) in [(40_000usize, 40_000usize, 3usize), (21_600, 64_800, 3), (50_000, 30_000, 0), (70_000, 20_000, 2)] {
+        let mut h = SparseMatrix::new(nr, nc);
+        for c in 0..nc { for _ in 0..per_col { h.insert(rng.below(nr), c); } }
+        let mut verdict = "roundtrip-ok".to_string();
+        for (form, text) in [("padded", h.alist()), ("unpadded", h.alist_no_padding())] {
+            let h2 = h.clone();
+            match guarded(move || SparseMatrix::from_alist(&text)) {
+                Ok(Ok(g)) => {
+                    let same = g.num_rows() == h2.num_rows() && g.num_cols() == h2.num_cols()
+                        && (0..h2.num_cols()).all(|c| { let mut a: Vec<usize> = g.iter_col(c).copied().collect(); let mut b: Vec<usize> = h2.iter_col(c).copied().collect(); a.sort_unstable(); b.sort_unstable(); a == b });
+                    if !same { verdict = format!("roundtrip-differs-{}", form); }
+                }
+                Ok(Err(_)) => verdict = format!("own-{}-alist-rejected", form),
+                Err(_) => verdict = format!("panic-{}", form),
+            }
+        }
+        ctx.emit(&format!("c08 big {} {} {}", nr, nc, per_col), &verdict, true, &["large-sparse-matrix-roundtrip"]);
+    }
     for _ in 0..ctx.scale(1500, 200000) {
         let s = soup(&mut rng);
         let o = parse_res(&s);
